@@ -294,7 +294,7 @@ PROPS = {
         "assumptions": [],
     },
     "C15": {
-        "required_theorems": ["c15_replace_consistent", "c15_preserve_sends_same", "c15_marker_top_only", "c15_blank_key_restored", "c15_edge_points_kept", "c15_import_stored", "c15_children_order", "c15_reexport", "c15_export_is_own_tree", "c15_export_import_export",
+        "required_theorems": ["c15_replace_consistent", "c15_preserve_sends_same", "c15_marker_top_only", "c15_blank_key_restored", "c15_edge_points_kept", "c15_import_stored", "c15_children_order", "c15_reexport", "c15_export_is_own_tree", "c15_export_import_export", "c15_import_timeless_file",
                               "c15_exports_live_only", "gen_export_pinned", "gen_export_constants_pinned"],
         "n": {"quick": 500, "thorough": 4000},
         "thorough_seeds": 3,
@@ -308,7 +308,7 @@ PROPS = {
         "trusted": ["github.com/goccy/go-yaml v1.11.2 Marshal/Unmarshal of the export structure (parameter: the model hands the tree from export to import; every case goes through the real YAML text)",
                     "github.com/google/uuid: new ids are pairwise different and not blank (hypotheses hinj, hne of c15_replace_consistent)", "modernc SQLite as in C05", "embedded nats-server"],
         "modelled": ["client/node.go ExportNodes/exportNodesHelper, ImportNodes, checkIDs, ReplaceIDs, SendNode modelled by hand on the store model (Siot/Model/Export.lean); a tree is a pre-order list with depths; shape re-extracted every run (gen_export_pinned)",
-                     "import under 'root' (replacing the root node) is generated (1 case in 8, on a fresh instance) and judged against the model's import under a group: the old root must be gone and the imported tree be the only root", "time stamps (not exported) and origins are outside the comparison"],
+                     "import under 'root' (replacing the root node) is generated (1 case in 8, on a fresh instance) and judged against the model's import under a group: the old root must be gone and the imported tree be the only root", "time stamps and origins are outside the comparison; the YAML file carries no time stamps (the store stamps the points at the import): the model's export keeps the times, the driver zeroes them before the import, and c15_import_timeless_file proves that importing the time-less file is importing the file stamped with the clocks of the import, the form c15_import_stored speaks about"],
         "assumptions": ["c15_import_stored: the nodes are in the form exportNodesHelper writes (stored rows, key '0' blanked), unknown to the target store, no mirror inside the tree, parent not 'root'/'none'"],
         "partial": "proved: the tree transformations (id replacement, check, marker, noise reduction, liveness of exported nodes); on the store model, for trees without mirrors: sending the prepared nodes leaves exactly one new edge per node "
                    "in file order and the record read back for every imported node is the node of the file, deletion mark included (c15_import_stored, c15_children_order); exporting any imported node again returns the pre-order list the file's own "
